@@ -442,6 +442,24 @@ def handlePeg (req : Json) : Except String String := do
     | .ok ts r => "[\"ok\",[" ++ ",".intercalate (ts.map tokJ) ++ "]," ++ toString (x.length - r.length) ++ "]"
   pure ("{\"model\":[" ++ ",".intercalate outs ++ "]}")
 
+
+/-- `to_flat_column_type` on a column description: keys / type name / kwargs of the type call (values are opaque JSON texts) -/
+def handleFlatCol (req : Json) : Except String String := do
+  let pairs (j : Json) : Except String (List (String × String)) :=
+    match j with
+    | .arr xs => xs.toList.mapM fun p =>
+        match p with
+        | .arr #[.str k, v] => pure (k, v.compress)
+        | _ => err "pair expected"
+    | _ => err "list of pairs expected"
+  let keys ← pairs (← req.getObjVal? "keys")
+  let kw ← pairs (← req.getObjVal? "kw")
+  let ty ← req.getObjValAs? String "type"
+  let c : Dml.ColDesc String := { keys := keys, typeName := ty, typeKw := kw }
+  let r := Dml.flatColumn c
+  let show_ (l : List (String × String)) : String := "[" ++ ",".intercalate (l.map fun (k, v) => "[" ++ jstr k ++ "," ++ v ++ "]") ++ "]"
+  pure ("{\"keys\":" ++ show_ r.keys ++ ",\"type\":" ++ jstr r.typeName ++ ",\"kw\":" ++ show_ r.typeKw ++ "}")
+
 def handle (line : String) : String :=
   match Json.parse line with
   | .error e => "{\"error\":" ++ jstr ("json: " ++ e) ++ "}"
@@ -460,6 +478,7 @@ def handle (line : String) : String :=
       | .ok "skip" => handleSkip req
       | .ok "insert" => handleInsert req
       | .ok "peg" => handlePeg req
+      | .ok "flatcol" => handleFlatCol req
       | .ok "fmtTable" => pure handleFmtTable
       | .ok "ping" => pure "{\"pong\":true}"
       | .ok o => err ("unknown op " ++ o)
